@@ -675,6 +675,8 @@ func (w *worker[T, JobType]) Restart() error {
 		return ErrNotRunningWorker
 	}
 
+	// the previous run's idle-worker remover ends with its run
+	w.stopTickers()
 	w.closeChannels()
 
 	w.mx.Lock()
